@@ -693,6 +693,9 @@ func genCaseC10(t *rapid.T) *c10Case {
 	p := Profile{Strategy: strategy, MaxDepth: rapid.IntRange(2, 4).Draw(t, "maxDepth"), Mutation: true}
 	if strategy == "X" {
 		p.Abstract = rapid.Bool().Draw(t, "abstract")
+		// (Go struct members take no arguments; the fields they back may declare some all the same,
+		// and what the request writes for them is checked like anywhere else)
+		p.Args = !p.Abstract && rapid.Bool().Draw(t, "argumentsOnStructBackedFields")
 	} else {
 		p.Args = true
 	}
@@ -713,7 +716,7 @@ func genCaseC10(t *rapid.T) *c10Case {
 	}
 	g := GenGraph(t, s, p, nil)
 	d, vars := GenDoc(t, s, p, false)
-	base := &Case{Schema: s, Graph: g, Doc: d, Vars: vars, Layout: GenLayout(t), Echo: p.Args, ListSeed: rapid.IntRange(0, 1<<20).Draw(t, "listSeed")}
+	base := &Case{Schema: s, Graph: g, Doc: d, Vars: vars, Layout: GenLayout(t), Echo: p.Args && strategy != "X", ListSeed: rapid.IntRange(0, 1<<20).Draw(t, "listSeed")}
 	base.Assign, base.AnyInstalled = GenAssign(t, g, strategy)
 	base.Warm = GenWarm(t, s, p)
 	base.Op = d.Ops[0].Name
@@ -728,7 +731,9 @@ func genCaseC10(t *rapid.T) *c10Case {
 	var cp Case
 	roundTrip(base, &cp)
 	kinds := defectKinds
-	if strategy == "X" {
+	if strategy == "X" && p.Args {
+		kinds = defectKinds
+	} else if strategy == "X" {
 		kinds = []string{"unknown-field", "unknown-directive", "misplaced-directive", "undeclared-directive-arg", "omitted-required-directive-arg", "undefined-condition-inline", "undefined-condition-fragment"}
 	}
 	perm := rapid.Permutation(kinds).Draw(t, "kindOrder")
